@@ -803,18 +803,17 @@ func (e *Engine) registerMisc() {
 			if !b.IsInt() {
 				p.obligationAssume(smt.Lt(b, smt.Int(128)), site, "strconv.Quote of non-ASCII byte")
 			}
-			done := false
-			for _, e := range []struct {
-				c   byte
-				rep string
-			}{{'"', `\"`}, {'\\', `\\`}, {'\n', `\n`}, {'\r', `\r`}, {'\t', `\t`}, {'\a', `\a`}, {'\b', `\b`}, {'\f', `\f`}, {'\v', `\v`}} {
-				if p.branch(smt.Eq(b, smt.Int(int64(e.c)))) {
-					out = strConcat(out, constStr(e.rep))
-					done = true
-					break
-				}
+			// three classes per byte (named escape / printable / hex), not one fork per escape
+			named := []struct{ c, l byte }{{'"', '"'}, {'\\', '\\'}, {'\n', 'n'}, {'\r', 'r'}, {'\t', 't'}, {'\a', 'a'}, {'\b', 'b'}, {'\f', 'f'}, {'\v', 'v'}}
+			var isNamed []*smt.Term
+			letter := smt.Int(0)
+			for _, e := range named {
+				isNamed = append(isNamed, smt.Eq(b, smt.Int(int64(e.c))))
+				letter = smt.Ite(smt.Eq(b, smt.Int(int64(e.c))), smt.Int(int64(e.l)), letter)
 			}
-			if done {
+			if p.branch(smt.Or(isNamed...)) {
+				out = strConcat(out, constStr(`\`))
+				out = strConcat(out, bytesToStr([]*smt.Term{letter}))
 				continue
 			}
 			if p.branch(smt.And(smt.Ge(b, smt.Int(0x20)), smt.Le(b, smt.Int(0x7e)))) {
